@@ -24,6 +24,7 @@
 //       broadcast before in this library call, k = number of calls since the last of them;
 //       LA,l,k,d / LD,l,k (sign steps only): the k-th Broadcast call made at identifier nesting depth l
 //       (1 = the identifier of the library call itself) is increased by d / dropped
+//       ZC,a,b (sign steps only): the party's strong draws number a .. b-1 of the call are 0
 //
 //  summary lines for the direct predicates (all fields of every party; `-` = the party died / no report):
 //   prop.cgjkr.gen seed= case= n= t= p q g h honest=[..] tag:.. => Pi:ret|[QUAL]|x|xp|y|[xQUAL]|[C..] ..
@@ -31,6 +32,10 @@
 //        Pi:genret|x0|xp0|y0|[QUAL0]|refret|[QUAL1]|x1|xp1|y1|[xQUAL1]|[C1..]       (`.` for parties outside sub)
 //   prop.cgjkr.sign seed= case= n= t= p q g h m= step=1|2 sub=[..] refreshed=0|1 honest=[..] tag:.. =>
 //        Pi:genret|[QUAL]|x|xp|y|signret|r|s|verify     (state right before the Sign call; verify = library verdict)
+//   prop.cgjkr.vss2 seed= case= n= t= p q g h sigma= honest=[..] tag:.. => Pi:shareret|rec1ret|value1|rec2ret|value2
+//        (kind vss2, only with `--kind vss2`: the back-up sharing `k_i_vss[dealer = 0]` of Sign step 1c, then
+//         PedersenVSS::Reconstruct twice under one enclosing broadcast identifier, as Sign steps 1e and 2e do for
+//         a signer that fails the product proof both times)
 //
 // Time: see drv_dkg.cc (virtual clock that ticks at global quiescence).  The binary has one time(): the one
 // of drv_dkg.cc; install_clock() redirects its entry to the clock of this driver in the party processes
@@ -144,6 +149,7 @@ struct Dev {
 	std::map<IP, std::pair<std::string, std::string> > bm;
 	std::map<IP, std::string> ba; std::set<IP> bd; std::map<IP, std::vector<std::string> > bi;
 	std::map<IP, std::string> la; std::set<IP> ld;
+	std::vector<IP> zc;
 	std::string text;
 	void item(const std::string &s) { if (!text.empty()) text += ";"; text += s; }
 	void S() { sfb = true; item("S"); }
@@ -156,6 +162,7 @@ struct Dev {
 	void N(int g, int k, const std::string &v) { bi[IP(g, k)].push_back(v); item("N," + std::to_string(g) + "," + std::to_string(k) + "," + v); }
 	void LA(int l, int k, const std::string &d) { la[IP(l, k)] = d; item("LA," + std::to_string(l) + "," + std::to_string(k) + "," + d); }
 	void LD(int l, int k) { ld.insert(IP(l, k)); item("LD," + std::to_string(l) + "," + std::to_string(k)); }
+	void ZC(int a, int b) { zc.push_back(IP(a, b)); item("ZC," + std::to_string(a) + "," + std::to_string(b)); }
 	std::string str() const { return text.empty() ? "-" : text; }
 	bool honest() const { return text.empty(); }
 	bool patient() const { return !bd.empty() || !ld.empty(); }
@@ -171,6 +178,7 @@ struct CoinTap {
 	// depends on the position in the protocol only (library call, number of strong draws and of output
 	// operations so far).
 	uint64_t base = 0; const long *ops = nullptr; const int *step = nullptr;
+	const std::vector<IP> *zc = nullptr;   // `ZC,a,b`: the party's strong draws number a .. b-1 of this call are 0
 	void begin(int head_count) { drain(EV_OTHER, IP(-1, -1)); head = head_count; expect.clear(); }
 	void drain(Ev ev, IP at)
 	{
@@ -194,6 +202,7 @@ struct CoinTap {
 		if (ops && step) {
 			SplitMix mx(base + 0x9e3779b97f4a7c15ULL * (uint64_t)(*step) + 0xc2b2ae3d27d4eb4fULL * (uint64_t)strong.size() + 0x165667b19e3779f9ULL * (uint64_t)(*ops));
 			coins.reseed(mx.next());
+			if (zc) for (auto &iv : *zc) if ((int)strong.size() >= iv.first && (int)strong.size() < iv.second) { coins.script.assign(1 << 14, 0); coins.script_pos = 0; }
 		}
 	}
 	std::string strong_s() const { std::string s = "["; for (size_t i = 0; i < strong.size(); i++) { if (i) s += ","; s += strong[i]; } return s + "]"; }
@@ -219,7 +228,7 @@ struct ChildCtx {
 		rbc = r; depth0 = r->last_IDs.size(); lv_cnt.clear();
 		dev = d; dev_active = true; ops = 0; seg = 0; off = 0; bc_cur = IP(-1, -1); po_cnt.clear(); pi_cnt.clear();
 		tap.strong.clear(); tap.weak.clear();
-		tap.base = seed_base; tap.ops = &ops; tap.step = &step_no;
+		tap.base = seed_base; tap.ops = &ops; tap.step = &step_no; tap.zc = &dev.zc;
 		tap.begin(head);
 		step_name = name;
 	}
@@ -326,7 +335,7 @@ class tap_unicast : public aiounicast
 		virtual ~tap_unicast() {}
 };
 
-enum Kind { K_GEN = 0, K_SIGN = 1 };
+enum Kind { K_GEN = 0, K_SIGN = 1, K_VSS2 = 2 };
 static const int NSTEP = 4;
 struct Case {
 	uint64_t seed = 0, idx = 0; int kind = K_GEN; int n = 3, t = 1, trbc = 0; unsigned pbits = 96, qbits = 32;
@@ -424,7 +433,21 @@ static void child_main(const Case &c, int me, int report_fd, Pipes *P)
 			c2 = make_chan(cx, n2, me2, (n2 - 1) / 3, uin, uout, bin, bout, f, "drv-cgjkr-sub");
 		}
 		cx.rbc = c1.rbc;
-		if (c.kind == K_GEN) {
+		if (c.kind == K_VSS2) {
+			// the back-up sharing of Sign step 1c (dealer 0), reconstructed twice under one enclosing identifier
+			// as Sign does in steps 1e and 2e for a signer that fails the product proof both times
+			PedersenVSS vss(c.n, c.t, me, c.p, c.q, c.g, c.h, c.pbits, c.qbits, false, "k_i_vss[dealer = 0]");
+			cur = "vs";
+			cx.begin_step("vs", c.dev[0][me], 0, c1.rbc);
+			c1.rbc->setID("stand-in for the identifier of Sign");
+			bool sr = (me == 0) ? vss.Share(c.msg1, c1.u, c1.rbc, err, false) : vss.Share((size_t)0, c1.u, c1.rbc, err, false);
+			Z v1(-1L), v2(-1L);
+			bool r1 = vss.Reconstruct(0, v1, c1.rbc, err);
+			bool r2 = vss.Reconstruct(0, v2, c1.rbc, err);
+			c1.rbc->unsetID();
+			cx.report(std::string("vs sr=") + (sr ? "1" : "0") + " r1=" + (r1 ? "1" : "0") + " v1=" + v1.str() + " r2=" + (r2 ? "1" : "0") + " v2=" + v2.str());
+			barrier(cx, 1, c1, c2);
+		} else if (c.kind == K_GEN) {
 			CanettiGennaroJareckiKrawczykRabinDKG dkg(c.n, c.t, me, c.p, c.q, c.g, c.h, c.pbits, c.qbits, false, false, "d");
 			cur = "gen";
 			cx.begin_step("gen", c.dev[0][me], 11, c1.rbc);
@@ -583,6 +606,18 @@ static std::string run_case(const Case &c, double limit_s)
 	bool dssk = (c.kind == K_SIGN);
 	auto K = [&](const char *k) { return std::string(dssk && (!strcmp(k, "x") || !strcmp(k, "xp") || !strcmp(k, "y")) ? "d" : "") + k; };
 	auto KQ = [&]() { return std::string(dssk ? "dQ" : "QUAL"); };
+	if (c.kind == K_VSS2) {
+		set_crash("vs");
+		std::string prop;
+		for (int i = 0; i < c.n; i++) {
+			const KV *s = find(i, "vs");
+			if (!s) { prop += " P" + std::to_string(i) + ":-"; continue; }
+			prop += " P" + std::to_string(i) + ":" + get(s, "sr") + "|" + get(s, "r1") + "|" + get(s, "v1") + "|" + get(s, "r2") + "|" + get(s, "v2");
+		}
+		add("prop.cgjkr.vss2 " + where + " sigma=" + c.msg1.str() + " honest=" + honest_upto(0) + " tag:" + c.tag + " =>" + prop + crash);
+		munmap(sh, sizeof(Shared));
+		return lines;
+	}
 	// ---- Generate
 	{
 		set_crash("gen");
@@ -592,8 +627,11 @@ static std::string run_case(const Case &c, double limit_s)
 			const KV *cs = s ? s : d;
 			in += " " + get(cs, "strong") + " " + get(cs, "weak") + " " + c.dev[0][i].str();
 			if (!s) { out += " -"; prop += " P" + std::to_string(i) + ":-"; continue; }
+			// the trace line carries the members of the DKG object (what the model computes), the summary line
+			// the copies the DSS object took after a successful call (what Sign uses)
+			std::string om = get(s, "ret") + "|" + get(s, "QUAL") + "|" + get(s, "x") + "|" + get(s, "xp") + "|" + get(s, "y") + "|" + get(s, "xq") + "|" + get(s, "C");
 			std::string o = get(s, "ret") + "|" + get(s, KQ()) + "|" + get(s, K("x")) + "|" + get(s, K("xp")) + "|" + get(s, K("y")) + "|" + get(s, "xq") + "|" + get(s, "C");
-			out += c.dev[0][i].patient() ? std::string(" *") : " " + o;
+			out += c.dev[0][i].patient() ? std::string(" *") : " " + om;
 			prop += " P" + std::to_string(i) + ":" + o;
 		}
 		add("cgjkr.gen " + nt + " " + pqgh + in + " tag:" + c.tag + " =>" + out + crash);
@@ -714,6 +752,12 @@ static std::string dev_sign(Dev &d, SplitMix &g, int how, int n, int t, const Ca
 	case 9: d.LA(1, (int)g.below(34), zs(c.q)); return "sign-plusq";
 	case 10: d.LA(1, 4 + (int)g.below(2), "1"); return "sign-badproof1c";
 	case 11: d.LA(1, 21, "1"); return "sign-badproof2c";
+	case 14: {
+		// a signer that fails the product proof in step 1d AND in step 2d and still stays in step: its back-up
+		// sharings of v_i use the constant polynomial with zero randomness (then its own view of the mu / s
+		// shares coincides with the view of the parties that reconstructed v_i)
+		int a1 = 12 * t + 14, a2 = a1 + 1 + 2 * t, b1 = a2 + 6 * t + 11, b2 = b1 + 1 + 2 * t;
+		d.LA(1, 12, "1"); d.LA(1, 28, "1"); d.ZC(a1, a2); d.ZC(b1, b2); return "sign-badproof-both-instep"; }
 	case 12: d.LA(2, (int)g.below(60), "1"); return "sign-bad2";
 	default: d.LA(1, 2 + (int)g.below(2), "1"); return "sign-bad-di";
 	}
@@ -731,9 +775,9 @@ static void make_case(Case &c, uint64_t seed, uint64_t idx, bool thorough, const
 	SplitMix g(seed * 0x9e3779b97f4a7c15ULL + idx * 0x100000001b3ULL + 0x2545f4914f6cdd1dULL);
 	c.seed = seed; c.idx = idx;
 	c.kind = (idx % 3 == 2) ? K_SIGN : K_GEN;
-	if (o.val("--kind") != "") c.kind = (o.val("--kind") == "sign") ? K_SIGN : K_GEN;
+	if (o.val("--kind") != "") c.kind = (o.val("--kind") == "sign") ? K_SIGN : (o.val("--kind") == "vss2") ? K_VSS2 : K_GEN;
 	int pi;
-	if (c.kind == K_SIGN) { static const int SP[] = { 0, 0, 1, 2, 3, 4, 6 }; pi = SP[g.below(thorough ? 7 : 5)]; }
+	if (c.kind == K_SIGN) { static const int SP[] = { 0, 0, 1, 2, 3, 4, 6, 5, 7 }; pi = SP[g.below(thorough ? 9 : 5)]; }
 	else if (g.below(5) == 0) pi = (int)g.below(NPAIRS);
 	else { static const int FP[] = { 0, 1, 2, 3, 4, 5, 6, 7 }; pi = FP[g.below(8)]; }
 	c.n = PAIRS[pi][0]; c.t = PAIRS[pi][1];
@@ -764,6 +808,7 @@ static void make_case(Case &c, uint64_t seed, uint64_t idx, bool thorough, const
 	int f = 0;
 	if (fmax > 0 && idx >= 2) f = (g.below(4) == 0) ? (int)g.below(fmax + 1) : fmax;
 	if (o.val("--f") != "") f = std::min(fmax, atoi(o.val("--f").c_str()));
+	if (c.kind == K_VSS2) { f = 0; gen_below(c.msg1, g, c.q); }
 	std::vector<int> ids; for (int i = 0; i < c.n; i++) ids.push_back(i);
 	for (int i = c.n - 1; i > 0; i--) std::swap(ids[i], ids[g.below(i + 1)]);
 	if (o.val("--who") != "") { int w = atoi(o.val("--who").c_str()); auto it = std::find(ids.begin(), ids.end(), w); if (it != ids.end()) std::swap(*it, ids[0]); }
